@@ -7,7 +7,8 @@ from . import c16
 from .c12 import hash_seed_run, _Sink
 
 ID = 'C17'
-RULE = ('cases: the sampler configurations of C16 (reactivity tables with explicit zeros, conditional tables, '
+RULE = ('[sampler fragments contain bracket atoms without H count, zero-order descriptors, targets a hair above a reachable mass sum; fragment-mass tolerance 0.006 u per atom] '
+        'cases: the sampler configurations of C16 (reactivity tables with explicit zeros, conditional tables, '
         'terminal sets, targets <=0..400, seeds, coarse masses or element-derived masses). Oracle on the '
         'reconstructed growth history: summed mass of the added fragments >= target and < target without the last '
         '(no growth iff target <= 0); element-derived fragment masses = sum of atomic masses incl. implicit '
